@@ -5,7 +5,7 @@
    state (checked after every operation of every generated history).  (2) On the model of C28: the
    invariant (uniform depth, strictly increasing keys inside the separator bounds, page space accounting)
    is preserved by every in-scope history judged to its end (model of the code as repaired; no exception
-   class - a history in which the zero-separator panic F-C28-8 occurs is not judged to its end); and
+   class); and
    compaction is unreachable. *)
 From Coq Require Import ZArith List Bool.
 From TV Require Import Lib.MachInt Gen.Varint Model.BTree Model.BTreeSpec Model.BTreeInv Model.BTreePages Model.BTreeWitness
